@@ -69,6 +69,15 @@ CHECKS = {
               'Thousands of generated tables per run against the real '
               'reconciliation code plus end-to-end mappings.',
               'DESIGN.md section 2 C08', _BASE_NOTE),
+    'C10': _e('exploration',
+              'reference-model monitor: every public query, transformation '
+              'and serialisation of the real TaxonomyTree compared with a '
+              'parent-pointer model; bounded-exhaustive workload (all 470 '
+              'shapes) + random trees; one-edit malformed variants must be '
+              'rejected (or behave as the tree they denote)',
+              'Exhaustive over all shapes with <=4 levels and <=6 leaves in '
+              'the thorough tier, sampled beyond.',
+              'DESIGN.md section 2 C10', _BASE_NOTE),
     'C15': _e('exploration',
               'cross-file consistency monitor over the JSON, CSV (csv '
               'module) and HDF5 (hdf5_to_blob) outputs of generated runs, '
